@@ -82,8 +82,9 @@ type signLike = jwt.Signer
 type valPlan struct {
 	o             jwtref.Opts
 	deprecatedAud bool
-	class         string
-	v             *jwt.Validator // built once at t0 inside the bubble, reused at every instant
+	class, short  string
+	v             *jwt.Validator     // built once at t0 inside the bubble, reused at every instant
+	reused        *jwt.ValidatorOpts // the caller's options struct, re-filled for every later NewValidator call
 	uses          int
 }
 
@@ -243,6 +244,12 @@ func (w *world) drawKeys() {
 		if err != nil {
 			t.Fatalf("harness: material from %s: %v", s.e.Name, err)
 		}
+		// pool keys are finite: the same RSA key drawn twice is ONE material
+		for _, o := range w.mats {
+			if m.rsaN != nil && o.fam == m.fam && string(o.rsaN) == string(m.rsaN) {
+				m = o
+			}
+		}
 		w.mats = append(w.mats, m)
 	}
 	nKeys := rapid.IntRange(nMat, nMat+2).Draw(t, "nKeys")
@@ -384,6 +391,7 @@ func (w *world) drawValidators(h house) {
 		}
 		vp.class = fmt.Sprintf("t%s.i%s.a%s.me%v.ip%v.s%v", m3(vp.o.ExpectedTyp, vp.o.IgnoreTyp), m3(vp.o.ExpectedIss, vp.o.IgnoreIss), m3(vp.o.ExpectedAud, vp.o.IgnoreAud),
 			b2i(vp.o.AllowMissingExpiration), b2i(vp.o.ExpectIssuedInThePast), vp.o.ClockSkew)
+		vp.short = fmt.Sprintf("me%v.ip%v.s%v", b2i(vp.o.AllowMissingExpiration), b2i(vp.o.ExpectIssuedInThePast), vp.o.ClockSkew)
 		w.vals = append(w.vals, vp)
 		w.r.Logf("validator %d: %s", i, vp.describe())
 	}
@@ -424,8 +432,8 @@ func (vp *valPlan) tinkOpts(fixed time.Time) *jwt.ValidatorOpts {
 func (w *world) drawTokens(h house) {
 	t := w.t
 	maxTok := 5
-	if core.Thorough() {
-		maxTok = 8
+	if core.Thorough() || w.class == "mac" {
+		maxTok = 8 // MAC decisions cost microseconds: amortise the bubble over more of them
 	}
 	n := rapid.IntRange(1, maxTok).Draw(t, "nTokens")
 	at := int64(0)
@@ -463,16 +471,23 @@ func (w *world) drawTokens(h house) {
 			// a key that looks exactly like a key of the keyset (algorithm, kid) over other material
 			victim := w.keys[tp.signer]
 			src := w.sourceOf(victim.mat)
-			fm, err := newMaterial(fmt.Sprintf("foreign%d", i), src, rapid.IntRange(0, catalog.PoolKeysPerGroup-1).Draw(t, "foreignPoolIdx"))
-			if err != nil {
-				t.Fatalf("harness: foreign material: %v", err)
-			}
-			if fm.rsaN != nil && string(fm.rsaN) == string(victim.mat.rsaN) {
-				// the pool handed out the victim's own modulus: take the next one
-				fm, err = newMaterial(fmt.Sprintf("foreign%d", i), src, poolIndexOther(src, victim.mat))
+			// (pool-based families: a pool key none of the keyset's materials uses)
+			var fm *material
+			first := rapid.IntRange(0, catalog.PoolKeysPerGroup-1).Draw(t, "foreignPoolIdx")
+			for j := 0; j < catalog.PoolKeysPerGroup && fm == nil; j++ {
+				c, err := newMaterial(fmt.Sprintf("foreign%d", i), src, first+j)
 				if err != nil {
 					t.Fatalf("harness: foreign material: %v", err)
 				}
+				fm = c
+				for _, o := range w.mats {
+					if c.rsaN != nil && o.fam == c.fam && string(o.rsaN) == string(c.rsaN) {
+						fm = nil
+					}
+				}
+			}
+			if fm == nil {
+				t.Fatalf("harness: the pool has no key left that is foreign to the keyset")
 			}
 			fk := &wkey{mat: fm, alg: victim.alg, rule: victim.rule, kid: victim.kid, id: victim.id, enabled: true}
 			if err := fk.build(); err != nil {
@@ -575,16 +590,6 @@ func (w *world) sourceOf(m *material) source {
 	return source{}
 }
 
-func poolIndexOther(s source, not *material) int {
-	for i := 0; i < catalog.PoolKeysPerGroup; i++ {
-		m, err := newMaterial("probe", s, i)
-		if err == nil && string(m.rsaN) != string(not.rsaN) {
-			return i
-		}
-	}
-	return 0
-}
-
 func floorDiv(a, b int64) int64 {
 	q := a / b
 	if a%b != 0 && (a < 0) != (b < 0) {
@@ -598,6 +603,8 @@ func (w *world) planEvents() {
 	maxEvents := 220
 	if core.Thorough() {
 		maxEvents = 700
+	} else if w.class == "mac" {
+		maxEvents = 500
 	}
 	// slower verification → fewer instants per run
 	slow := 0
@@ -816,6 +823,21 @@ func distClass(d int64) string {
 	return ">=1s"
 }
 
+// relShort is relClass with every distance above 1 ns folded into one class.
+func relShort(n string, tr jwtref.TimeRel) string {
+	if !tr.Checked {
+		return n + "-"
+	}
+	side := "ok"
+	if !tr.Holds {
+		side = "X"
+	}
+	if tr.Dist <= 1 {
+		return n + side + "@" + distClass(tr.Dist)
+	}
+	return n + side
+}
+
 func relClass(n string, tr jwtref.TimeRel) string {
 	if !tr.Checked {
 		return n + "-"
@@ -842,13 +864,20 @@ func (w *world) decide(ev event, now time.Time, fixed bool) {
 	if fixed {
 		path = "FixedNow"
 		var err error
-		v, err = jwt.NewValidator(vp.tinkOpts(now))
+		*vp.reused = *vp.tinkOpts(now) // the caller re-uses its options struct; validators made earlier must not care
+		v, err = jwt.NewValidator(vp.reused)
 		if err != nil {
 			r.Violation("C09/legal-validator-refused", fmt.Sprintf("%s with FixedNow: %v", vp.describe(), err))
 			return
 		}
 	} else {
 		v = vp.v
+		// the caller goes on using its options struct for other validators
+		*vp.reused = jwt.ValidatorOpts{FixedNow: t0.Add(-24 * time.Hour), ClockSkew: time.Minute, IgnoreTypeHeader: true, IgnoreIssuer: true, IgnoreAudiences: true, AllowMissingExpiration: true}
+		if _, err := jwt.NewValidator(vp.reused); err != nil {
+			r.Violation("C09/legal-validator-refused", fmt.Sprintf("%v", err))
+			return
+		}
 		vp.uses++
 		if vp.uses > 1 && now.After(t0) {
 			r.Probe("validator-reused-at-later-instant")
@@ -897,7 +926,11 @@ func (w *world) decide(ev event, now time.Time, fixed bool) {
 	}
 	w.outcomes[out] = true
 	if !fixed {
-		r.Count("model:"+string(want.Reason), 1)
+		if want.Accept {
+			r.Count("model:accept", 1)
+		} else {
+			r.Count("model:"+string(want.Reason), 1)
+		}
 	}
 	if !fixed {
 		for _, c := range []struct {
@@ -943,7 +976,9 @@ func (w *world) decide(ev event, now time.Time, fixed bool) {
 				}
 			}
 		}
-		r.SetAdd("decision-classes", strings.Join([]string{tp.by.mat.fam, tp.by.rule.String(), vp.class, tc, tp.tamper, w.transport, out}, "|"))
+		r.SetAdd("decision-classes", strings.Join([]string{tp.by.mat.fam, tp.by.rule.String(), vp.short,
+			relShort("exp", want.Exp) + " " + relShort("nbf", want.Nbf) + " " + relShort("iat", want.Iat), tp.tamper, w.transport, out}, "|"))
+		r.SetAdd("option-vectors", vp.class)
 	}
 }
 
@@ -986,7 +1021,11 @@ func run(t *rapid.T) {
 	g := simrng.New(rapid.Uint64().Draw(t, "rngSeed"))
 	defer simrng.Install(g)()
 	w := &world{r: r, t: t, g: g, typesSeen: map[string]bool{}, bits: map[string]bool{}, outcomes: map[string]bool{}}
-	w.class = rapid.SampledFrom([]string{"sig", "mac", "sig"}).Draw(t, "class")
+	classes := []string{"mac", "sig"} // quick tier: half of the runs on the (30× cheaper) MAC side
+	if core.Thorough() {
+		classes = []string{"mac", "sig", "sig"}
+	}
+	w.class = rapid.SampledFrom(classes).Draw(t, "class")
 
 	w.drawKeys()
 	h := house{iss: rapid.IntRange(-1, len(issPool)-1).Draw(t, "houseIss"), aud: rapid.IntRange(-1, len(audPool)-1).Draw(t, "houseAud"), typ: rapid.IntRange(-1, len(typPool)-1).Draw(t, "houseTyp")}
@@ -1006,7 +1045,8 @@ func run(t *rapid.T) {
 		}
 		w.refusals()
 		for i, vp := range w.vals {
-			v, err := jwt.NewValidator(vp.tinkOpts(time.Time{}))
+			vp.reused = vp.tinkOpts(time.Time{})
+			v, err := jwt.NewValidator(vp.reused)
 			if err != nil {
 				r.Violation("C09/legal-validator-refused", fmt.Sprintf("validator %d {%s}: %v", i, vp.describe(), err))
 				return
